@@ -96,7 +96,7 @@ func main() {
 		D := r.Pick(3, 4)
 		ds := []drivers.Driver{drivers.ReaderLoop(7), drivers.ReaderLoop(1), drivers.ReaderDiscard(1), drivers.NextReaderLoop(), drivers.ReadMessageLoop(),
 			drivers.WithSkipHeaderCheck(drivers.ReaderLoop(7)), drivers.WithSkipHeaderCheck(drivers.ReaderDiscard(1)),
-			drivers.ReadDataLoop("Generic"), drivers.ReadDataLoop("Text")}
+			drivers.ReadDataLoop("Generic"), drivers.ReadDataLoop("Text"), drivers.ReaderCopyHandler()}
 		r.Part("E1-read-side-every-cut", func(t *explore.T) {
 			all := collect(D)
 			t.Par(len(all), func(i int) {
@@ -506,13 +506,19 @@ func main() {
 						}
 						ref, _ := drivers.ParseFrames(d0.Bytes())
 						for j := 0; j < len(d0.Calls); j++ {
-							for _, partial := range []int{0, 1} {
+							for _, partial := range []int{0, 1, -1} {
 								j, partial := j, partial
+								// partial -1: the destination fails with an error that calls itself a timeout (a write
+								// deadline that passed); it is a failed write like any other
+								var derr error = env.ErrInjected
+								if partial < 0 {
+									partial, derr = 0, env.TempErr{IsTimeout: true}
+								}
 								t.Do(func() string {
-									return histDesc(c, S, hh) + fmt.Sprintf(" | dest call %d fails after %d byte(s)", j, partial)
+									return histDesc(c, S, hh) + fmt.Sprintf(" | dest call %d fails after %d byte(s) with %q", j, partial, derr)
 								}, func() *explore.Fail {
 									d := env.NewDst()
-									d.FailAt, d.Partial = j, partial
+									d.FailAt, d.Partial, d.Err = j, partial, derr
 									w, _ := wops.Build(c, d)
 									s := wops.NewSession(c, w, d)
 									for _, o := range hh {
@@ -529,9 +535,9 @@ func main() {
 										if wasFailed && obs.Err == "" && o.Kind != "Grow" && o.Kind != "ReadFrom" && o.Kind != "ReadFromErr" {
 											return explore.Failf("later-call-succeeds-after-failure:"+o.Kind, "%s returned nil after the destination failed", o)
 										}
-										if wasFailed && obs.Err != "" && obs.Err != env.ErrInjected.Error() && (o.Kind == "Write" || o.Kind == "WriteThrough" || o.Kind == "FlushFragment" || o.Kind == "Flush") {
+										if wasFailed && obs.Err != "" && obs.Err != derr.Error() && (o.Kind == "Write" || o.Kind == "WriteThrough" || o.Kind == "FlushFragment" || o.Kind == "Flush") {
 											// "reports the error": the destination's, not some other complaint
-											return explore.Failf("later-call-reports-another-error:"+o.Kind, "%s returned %q after the destination had failed with %q", o, obs.Err, env.ErrInjected.Error())
+											return explore.Failf("later-call-reports-another-error:"+o.Kind, "%s returned %q after the destination had failed with %q", o, obs.Err, derr.Error())
 										}
 										if !wasFailed && d.Failed && obs.Err == "" && o.Kind != "Grow" && o.Kind != "ReadFromErr" {
 											return explore.Failf("failing-call-reports-nil:"+o.Kind, "%s returned nil although the destination failed during it", o)
